@@ -85,6 +85,8 @@ func (e *Engine) external(key string, fn *ssa.Function) extFn {
 		return extExit
 	case "errors.New", "fmt.Errorf":
 		return extNewError
+	case "strings.NewReader":
+		return extNewReader
 	case "strings.Contains":
 		return extStringsContains
 	case "strings.Repeat":
@@ -213,4 +215,12 @@ func extSlicesClip(x *Exec, fr *Frame, st *State, fn *ssa.Function, args []*SV, 
 	w := x.w
 	s := x.svTerm(args[0])
 	k(st, fr, TV(w.slice.Make(w.slice.Get(s, 0), w.slice.Get(s, 1), w.slice.Get(s, 2), w.slice.Get(s, 2))))
+}
+
+func extNewReader(x *Exec, fr *Frame, st *State, fn *ssa.Function, args []*SV, site ssa.Instruction, k callK) {
+	if fr.pure {
+		unsupportedf("strings.NewReader in pure evaluation")
+	}
+	r := x.newRef(st)
+	k(st, fr, TV(r))
 }
